@@ -20,13 +20,13 @@ func init() { core.Register(c05{}) }
 func (c05) ID() string    { return "C05" }
 func (c05) Level() string { return "exploration" }
 func (c05) Rule() string {
-	return "cases = (configuration, pre-history, batch list): a pre-history with a small DataFileSize spreads keys over >=3 rotated files and the active file (some written by earlier batches, some deleted); then 6..30 batches with heavy key repetition (put-put, put-delete, delete-put, put-delete-put, delete of DB-only keys, empty batches, batches overflowing DataFileSize mid-way); in every second case the caller recycles one key buffer and one value buffer for all Batch calls and overwrites them after each return. After EVERY staged call Batch.Get of the touched key and of two other keys (rotated-file keys, never-written keys) is compared with the layered model (own latest staged op, else database value); after Commit the full dump is compared with in-order application; every committed batch (also the empty one) must reject Put/Delete/Get/Commit with ErrBatchCommitted without changing state, and a plain Put from another goroutine must then complete (lock released exactly once; a double unlock kills the worker and is reported as process death). Non-trivial: >=1 Batch.Get answered from a rotated file, >=1 put-after-delete of a key in one batch, >=1 overflowing batch; distinct = hash of (config, op log)"
+	return "cases = (configuration, pre-history, batch list): a pre-history with a small DataFileSize spreads keys over >=3 rotated files and the active file (some written by earlier batches, some deleted); then 6..30 batches with heavy key repetition (put-put, put-delete, delete-put, put-delete-put, delete of DB-only keys, empty batches, batches overflowing DataFileSize mid-way); in every second case the caller recycles one key buffer and one value buffer for all Batch calls and overwrites them after each return. After EVERY staged call Batch.Get of the touched key and of two other keys (rotated-file keys, never-written keys) is compared with the layered model (own latest staged op, else database value); after Commit the full dump is compared with in-order application; every committed batch (also the empty one) must reject Put/Delete/Get/Commit with ErrBatchCommitted without changing state, and a plain Put from another goroutine must then complete (lock released exactly once; a double unlock kills the worker and is reported as process death). Non-trivial: >=1 Batch.Get answered from a rotated file, >=1 put-after-delete of a key in one batch, >=1 overflowing batch; distinct = hash of (config, op log) A further family commits ONE batch of 1 Ki..140 K staged records (counts at and around powers of two and round numbers; with and without size-triggered flushes on the way), samples Batch.Get while staging, compares a full dump after Commit and after two clean restarts."
 }
 func (c05) Assumptions() []string {
 	return []string{"layered reference model", "the issuing goroutine calls only Batch methods while the batch is open (NewBatch holds the database lock by design)"}
 }
 func (c05) Required() []string {
-	return []string{"batch_gets", "batch_gets_rotated_file", "put_after_delete", "batches_overflow", "post_commit_rejections", "empty_batches", "lock_released_checks"}
+	return []string{"batch_gets", "batch_gets_rotated_file", "put_after_delete", "batches_overflow", "post_commit_rejections", "empty_batches", "lock_released_checks", "large_batches"}
 }
 
 func (c05) Cases(tier string, seed uint64) []core.Case {
@@ -43,7 +43,128 @@ func (c05) Cases(tier string, seed uint64) []core.Case {
 		cfg.DataFileSize = []int64{4 << 10, 8 << 10, 40 << 10}[r.Intn(3)]
 		out = append(out, core.Case{Index: i, ID: fmt.Sprintf("c05-%05d", i), Seed: r.U64(), Data: seqCase{Cfg: cfg, NOps: r.Range(6, 30), NKeys: r.Range(4, 10)}})
 	}
+	// very large batches: record counts at and around powers of two and round numbers (where
+	// count-gated paths switch on), without and with size-triggered flushes in between
+	nl := 10
+	if tier == "thorough" {
+		nl = 200
+	}
+	counts := []int{1 << 16, 1<<16 - 1, 1<<16 + 1, 1 << 12, 1 << 15, 1 << 17, 100000, 1 << 10, 50000, 1 << 14}
+	for j := 0; j < nl; j++ {
+		n := counts[j%len(counts)]
+		if j >= len(counts) {
+			switch (j / len(counts)) % 3 {
+			case 0:
+				n += r.Range(-2, 2)
+			case 1:
+				n = r.Range(1000, 140000)
+			}
+		}
+		cfg := core.Config{IndexType: core.IndexTypes[j%3], ShardNum: []int{16, 1, 64}[(j/3)%3], FileIO: byte((j / 2) % 2), DataFileSize: []int64{256 << 20, 256 << 20, 1 << 20}[(j/len(counts))%3]}
+		out = append(out, core.Case{Index: len(out), ID: fmt.Sprintf("c05-large-%04d", j), Seed: r.U64(), Data: seqCase{Cfg: cfg, NOps: -n}})
+	}
 	return out
+}
+
+// runLargeBatch: one batch staging n records (distinct fresh keys, a few overwrites and deletes
+// of existing keys), read-your-writes samples while staging, Commit, live comparison, a clean
+// restart and a full dump.
+func runLargeBatch(c core.Case, sc seqCase, w *core.Worker) core.Result {
+	res := core.Result{}
+	n := -sc.NOps
+	s := core.NewSession(w.Dir("lb"), sc.Cfg, &res)
+	s.NoStates = true
+	if !s.Open() {
+		return res
+	}
+	r := core.NewRng(c.Seed)
+	feat := map[string]string{"class": "large-batch", "io": fmt.Sprint(sc.Cfg.FileIO), "index": fmt.Sprint(sc.Cfg.IndexType)}
+	fail := func(msg string) {
+		res.Violate(msg, feat, map[string]any{"config": sc.Cfg, "staged_records": n})
+		s.Dead = true
+	}
+	var old [][]byte
+	for i := 0; i < 40; i++ {
+		k := []byte(fmt.Sprintf("old%02d", i))
+		old = append(old, k)
+		s.Exec(core.Op{Kind: "put", Key: k, VLen: r.Range(1, 50), VSeed: r.U64() | 1})
+	}
+	pv, st := core.Safe(func() {
+		b := s.DB.NewBatch(kv.BatchOptions{})
+		staged := 0
+		seen := map[string]bool{}
+		stage := func(k, v []byte, del bool) {
+			var err error
+			if del {
+				err = b.Delete(k)
+				s.M.Delete(k)
+			} else {
+				err = b.Put(k, v)
+				s.M.Put(k, v)
+			}
+			if err != nil {
+				fail(fmt.Sprintf("staging record #%d failed: %v", staged, err))
+			}
+			if !seen[string(k)] {
+				seen[string(k)] = true
+				staged++ // a repeated key replaces its staged record
+			}
+		}
+		for i := 0; staged < n && !s.Dead; i++ {
+			switch {
+			case i%5000 == 77:
+				stage(old[r.Intn(len(old))], core.FillValue(r.U64()|1, r.Range(0, 30)), false)
+			case i%5000 == 99:
+				k := old[r.Intn(len(old))]
+				if _, ok := s.M.Get(k); ok || seen[string(k)] {
+					stage(k, nil, true)
+				}
+			default:
+				stage([]byte(fmt.Sprintf("b%07x", core.Mix(uint64(i), c.Seed)>>36)), core.FillValue(r.U64()|1, r.Range(0, 6)), false)
+			}
+			if i%4001 == 4000 && !s.Dead {
+				// read-your-writes in the middle of staging
+				k := []byte(fmt.Sprintf("b%07x", core.Mix(uint64(r.Intn(i)), c.Seed)>>36))
+				want, ok := s.M.Get(k)
+				got, err := b.Get(k)
+				res.Add("batch_gets", 1)
+				if ok != (err == nil) || (ok && !bytes.Equal(got, want)) {
+					fail(fmt.Sprintf("Batch.Get(%s) while %d records are staged: len %d err=%v, overlay model: present=%v len %d", k, staged, len(got), err, ok, len(want)))
+				}
+			}
+		}
+		res.Add("records_staged_in_large_batches", int64(staged))
+		if err := b.Commit(); err != nil && !s.Dead {
+			fail("Commit of a large batch failed: " + err.Error())
+		}
+	})
+	if pv != nil {
+		res.Violate(fmt.Sprintf("large batch panicked: %v", pv), feat, st)
+		return res
+	}
+	if !s.Dead {
+		s.CheckDump("after Commit of a large batch")
+	}
+	if !s.Dead {
+		s.Exec(core.Op{Kind: "restart"})
+	}
+	if !s.Dead {
+		s.Exec(core.Op{Kind: "put", Key: []byte("after"), VLen: 10, VSeed: 1})
+		s.Exec(core.Op{Kind: "restart"})
+	}
+	if s.DB != nil {
+		s.Close()
+	}
+	res.Add("large_batches", 1)
+	for _, k := range []string{"batch_gets_rotated_file", "put_after_delete", "batches_overflow", "post_commit_rejections", "empty_batches", "lock_released_checks"} {
+		res.Add(k, 0)
+	}
+	res.Nontrivial = res.Counters["restarts"] >= 2
+	res.Hash = core.HashBytes([]byte(fmt.Sprint("large-batch", sc.Cfg, n, c.Seed)))
+	if c.Index%40 == 0 {
+		res.Sample = map[string]any{"kind": "large-batch", "config": sc.Cfg, "staged_records": n}
+	}
+	return res
 }
 
 type stagedOp struct {
@@ -53,6 +174,9 @@ type stagedOp struct {
 
 func (c05) Run(c core.Case, w *core.Worker) core.Result {
 	sc := c.Data.(seqCase)
+	if sc.NOps < 0 {
+		return runLargeBatch(c, sc, w)
+	}
 	res := core.Result{}
 	dir := w.Dir("db")
 	io := mon.NewIOLog()
